@@ -22,7 +22,7 @@ def loglike_vals(x):
     return 3.0 * x[..., 0] - 2.0 * x[..., -1]
 
 
-def make(kernel, d, K, periodic, reflective, rng, diagonal=False):
+def make(kernel, d, K, periodic, reflective, rng, diagonal=False, int_dof=False, like=None, n=6):
     means = rng.uniform(0.3, 0.7, (K, d))
     covs = []
     for _ in range(K):
@@ -30,12 +30,14 @@ def make(kernel, d, K, periodic, reflective, rng, diagonal=False):
         C = A @ A.T + 0.02 * np.eye(d)
         covs.append(np.diag(np.diag(C)) if diagonal else C)
     nus = rng.uniform(2.0, 9.0, K)
+    if int_dof:
+        # integer-typed degrees of freedom with d + nu odd (the documented type is "array of shape [K]")
+        nus = np.array([3 + 2 * (i % 3) + (d % 2) for i in range(K)], dtype=np.int64)
     ms = ModeStatistics(means, np.array(covs), nus)
-    n = 6
     u = rng.uniform(0.05, 0.95, (n, d))
     asg = rng.randint(0, K, n)
     cls = TPCNRunner if kernel == "tpcn" else RWMRunner
-    ll = lambda x: (loglike_vals(np.atleast_2d(x)), None)
+    ll = like or (lambda x: (loglike_vals(np.atleast_2d(x)), None))
     r = cls(u, u.copy(), loglike_vals(u), None, asg, BETA, ms, ll, lambda v: v, None, n_steps=1, n_max=1,
             periodic=periodic, reflective=reflective, verbose=False)
     r.sigmas = rng.uniform(0.2, 0.8, K) * (1.0 if kernel == "tpcn" else 0.5)
@@ -185,7 +187,7 @@ def balance(kernel, boundary, seed):
     d, K = 2, 2
     periodic = [0] if boundary == "periodic" else None
     reflective = [0] if boundary.startswith("reflective") else None
-    r, ms = make(kernel, d, K, periodic, reflective, rng, diagonal=boundary.endswith("diagonal"))
+    r, ms = make(kernel, d, K, periodic, reflective, rng, diagonal=boundary.endswith("diagonal"), int_dof=boundary.endswith("intdof"))
     for k in range(3):
         e = check_propose(r, ms, kernel, k)
         if e:
@@ -296,6 +298,52 @@ def law_after_moves():
             e = law_of_proposal(r, ms, kernel, k)
             if e:
                 return "after two accepted moves: " + e
+    return None
+
+
+def nested_kernels():
+    """a kernel whose likelihood itself runs a second kernel of the same ensemble shape (marginalising a nuisance block): the outer
+    kernel's returned walkers are still whole records (x = T(u), logl = L(x)) and its moves are its own proposals - nothing of the
+    inner kernel's work may leak into the outer iteration"""
+    for kernel in ("tpcn", "rwm"):
+        rng = np.random.RandomState(31)
+        inner_runs = []
+
+        def like(x, kernel=kernel, inner_runs=inner_runs):
+            if len(inner_runs) < 40:
+                ri, _ = make(kernel, 2, 1, None, None, np.random.RandomState(len(inner_runs)), n=6)
+                ri._check_convergence = lambda acc, ri=ri: ri.iteration >= 1
+                st_ = np.random.get_state()
+                try:
+                    ri.run()
+                finally:
+                    np.random.set_state(st_)
+                inner_runs.append(1)
+            return (loglike_vals(np.atleast_2d(x)), None)
+        r, ms = make(kernel, 2, 1, None, None, rng, like=like, n=6)
+        ref, _ = make(kernel, 2, 1, None, None, np.random.RandomState(31), n=6)
+        for q in (r, ref):
+            q._check_convergence = lambda acc, q=q: q.iteration >= 3
+        outs = []
+        st = np.random.get_state()
+        try:
+            for q in (r, ref):
+                np.random.seed(77)
+                try:
+                    outs.append(q.run())
+                except Exception as e:
+                    return f"{kernel}: run raised {type(e).__name__}: {e}"
+        finally:
+            np.random.set_state(st)
+        if not inner_runs:
+            return None
+        u, x, ll_ = np.asarray(r.u), np.asarray(r.x), np.asarray(r.logl)
+        if not (np.allclose(x, u) and np.allclose(ll_, loglike_vals(x))):
+            return (f"{kernel}: after a run whose likelihood runs a second kernel of the same shape, the walkers are not whole records "
+                    f"(x != T(u) or logl != L(x)): foreign positions were stored")
+        if not (np.array_equal(np.asarray(ref.u), u) and np.array_equal(np.asarray(ref.logl), ll_)):
+            return (f"{kernel}: the same seeded run gives different walkers when the likelihood internally runs another kernel of the same shape "
+                    f"(random stream restored around it): the inner kernel's work leaked into the outer iteration")
     return None
 
 
@@ -551,7 +599,7 @@ def main():
     else:
         # known findings (run only on request): tpcn with periodic/reflective coordinates; rwm with a reflective coordinate and a
         # correlated scale matrix
-        classes = [("tpcn", "hard"), ("rwm", "hard"), ("rwm", "periodic"), ("rwm", "reflective-diagonal")]
+        classes = [("tpcn", "hard"), ("rwm", "hard"), ("rwm", "periodic"), ("rwm", "reflective-diagonal"), ("tpcn", "hard-intdof")]
     for kernel, boundary in classes:
         for seed in range(3):
             tried += 1
@@ -564,7 +612,7 @@ def main():
                 return
     if not inp.get("kernel"):
         for name, fn in (("rejection", hard_boundary_rejection), ("whole-move-rejection", whole_move_rejection),
-                         ("mode-statistics", mode_statistics_consistent), ("law-after-moves", law_after_moves), ("mutator-sequence", mutator_sequence), ("accept-statement", accept_statement), ("sigma-range", sigma_range),
+                         ("mode-statistics", mode_statistics_consistent), ("law-after-moves", law_after_moves), ("nested-kernels", nested_kernels), ("mutator-sequence", mutator_sequence), ("accept-statement", accept_statement), ("sigma-range", sigma_range),
                          ("wiring", wiring)):
             tried += 1
             try:
